@@ -43,14 +43,14 @@ type Out struct {
 var checks = map[string]module.Check{}
 
 func checkFor(t *testing.T, r Row) module.Check {
-	k := fmt.Sprintf("%s/%s/%v/%s", r.Tbl, r.Norm, r.Chk, r.Act)
+	k := fmt.Sprintf("%s/%s/%v/%s", r.Tbl, r.NormSpec(), r.Chk, r.Act)
 	if c, ok := checks[k]; ok {
 		return c
 	}
 	m, err := authkit.InitFromText("check.authorize_sender", fmt.Sprintf("c15chk%d", len(checks)), nil,
-		CheckConfig(r.Tbl, r.Norm, r.Chk, r.Act))
+		CheckConfig(r.Tbl, r.NormSpec(), r.Chk, r.Act))
 	if err != nil {
-		t.Fatalf("authorize_sender init (%s): %v\n%s", k, err, CheckConfig(r.Tbl, r.Norm, r.Chk, r.Act))
+		t.Fatalf("authorize_sender init (%s): %v\n%s", k, err, CheckConfig(r.Tbl, r.NormSpec(), r.Chk, r.Act))
 	}
 	c := m.(module.Check)
 	checks[k] = c
@@ -72,7 +72,7 @@ func direct(t *testing.T, r Row) Out {
 		return fileRow(t, r, func(ref string, first bool) Out {
 			if first {
 				m, err := authkit.InitFromText("check.authorize_sender", "c15chk_"+ref, nil,
-					checkConfig(r.Tbl, r.Norm, r.Chk, r.Act, ref))
+					checkConfig(r.Tbl, r.NormSpec(), r.Chk, r.Act, ref))
 				if err != nil {
 					t.Fatalf("authorize_sender init (file): %v", err)
 				}
@@ -193,7 +193,7 @@ func endpointFor(t *testing.T, kind string, r Row) *endpoint {
 
 // endpointWith: fileRef != "" builds a private endpoint whose check refers to that table.file instance.
 func endpointWith(t *testing.T, kind string, r Row, fileRef string) *endpoint {
-	tbl, norm := r.Tbl, r.Norm
+	tbl, norm := r.Tbl, r.NormSpec()
 	k := fmt.Sprintf("%s/%s/%s/%v/%s/%s/%s", kind, tbl, norm, r.Chk, r.Nb, r.Act, fileRef)
 	if e, ok := endpoints[k]; ok {
 		return e
@@ -366,6 +366,9 @@ func TestReplay(t *testing.T) {
 		}
 		if row.In.Edit == "" {
 			row.In.Edit = "none" // rows stored before the field existed
+		}
+		if row.In.Anorm == "" {
+			row.In.Anorm = "="
 		}
 		var o Out
 		switch row.Via {
